@@ -323,6 +323,121 @@ def check_circuit(res, circ, rng, inp, model_m, model_spec=None, before=None):
     res.traces_validated += 1
 
 
+# ------------------------------------------------------------------ the theorem's statement on history-built circuits
+def parse_model_wires(hans):
+    """answer of query `h` -> {reg: [node strings]} (None when a walk failed)"""
+    body = hans.split(":", 1)[1]
+    wires = {}
+    if body == "*":
+        return wires
+    for item in body.split("/"):
+        r, w = item.split("~", 1)
+        if w.startswith("!"):
+            return None
+        wires[r] = w.split(".")
+    return wires
+
+
+def parse_model_nodes(nodes_field):
+    """`nodes=` of the full state -> {node string: op token}"""
+    out = {}
+    if nodes_field == "*":
+        return out
+    for item in nodes_field.split(";"):
+        n, tok = item.split("~", 1)
+        out[n] = tok
+    return out
+
+
+def schedule_of(circ, wires, nodes):
+    """the schedule `schedOf c P pos` of Proofs/MetricsHist.lean for pos = the implementation's topological order: the
+    operation nodes in the order of nx.topological_sort, each with its operation AS WIRED (wiredOp: only the classical
+    registers on whose model wire the node lies).  -> [(node string, wired op token, [registers])]"""
+    import networkx as nx
+
+    L = []
+    for n in nx.topological_sort(circ.dag):
+        if isinstance(n, str):
+            continue
+        tok = nodes.get(str(n))
+        if tok is None:
+            return None
+        name, q, c, lab, inner = tok.split(":")
+        cs = [] if c == "*" else c.split(".")
+        wired = [j for j in cs if str(n) in wires.get("c" + j, [])]
+        qs = [] if q == "*" else q.split(".")
+        L.append((str(n), ":".join([name, q, du.emp(".".join(wired)), lab, inner]), qs + ["c" + j for j in wired]))
+    return L
+
+
+def is_schedule(L, wires, nodes):
+    """the predicate `Sched c P L` (Proofs/PrepDepthStatic.lean) evaluated on the model's wires: every wire is `in`, the scheduled
+    nodes acting on the register in schedule order, `out`; L lists every operation node exactly once"""
+    ids = [n for n, _, _ in L]
+    if len(set(ids)) != len(ids) or set(ids) != {n for n in nodes if n.isdigit()}:
+        return False
+    for r, w in wires.items():
+        if w != [r + "_in"] + [n for n, _, regs in L if r in regs] + [r + "_out"]:
+            return False
+    return all(all(r in wires for r in regs) for _, _, regs in L)
+
+
+def plain_token(tok):
+    """hypothesis `AllPlain` of the theorems: no user labels, wrappers wrap base classes"""
+    name, q, c, lab, inner = tok.split(":")
+    labs = [] if lab == "*" else lab.split(".")
+    return all(x in ("one-qubit", "two-qubit") for x in labs) and "OneQubitGateWrapper" not in inner.split(".")
+
+
+def check_theorem_on_history(res, drv, circ, inp, rep, model_m):
+    """`C18.metrics_after_history` / `metrics_eq_spec_on_any_schedule` executed on one history-built circuit: take the model's wires,
+    form the schedule of the implementation's topological order, check it IS a schedule (`every_topological_order_is_a_schedule`),
+    evaluate the model's op-list specification `Spec.*` on its operation list (driver) and compare with the model's metrics, the
+    implementation's metrics and the harness' own definitions"""
+    answers = rep["q"].split(",")[-1].split("+")
+    hans = next((a for a in answers if a.startswith("h:")), None)
+    if hans is None:
+        return
+    wires = parse_model_wires(hans)
+    nodes = parse_model_nodes(rep.get("nodes", "*"))
+    if wires is None:
+        res.exact_break("metrics.schedule:wire-walk", input=inp, impl="reg_gate_history succeeds", model=hans[:200])
+        return
+    L = schedule_of(circ, wires, nodes)
+    if L is None or not is_schedule(L, wires, nodes):
+        res.exact_break("metrics.schedule:topological-order-is-a-schedule", input=inp, impl="schedule",
+                        model=str(L)[:300], note="the operation nodes in the implementation's topological order do not form a schedule "
+                        "of the model's wires (theorem every_topological_order_is_a_schedule, or the node identities, broke)")
+        return
+    regs = [int(x) for x in rep["regs"].split(",")]
+    toks = [t for _, t, _ in L]
+    srep = drv.ask(f"dag.metrics ne={regs[0]} np={regs[1]} nc={regs[2]} ops={du.emp(','.join(toks))} lite=1")
+    if srep["_status"] != "ok":
+        res.exact_break("metrics.schedule:spec-reply", input=inp, impl="ok", model=srep["_raw"][:200])
+        return
+    res.count("branches", "history:spec-on-schedule")
+    if all(plain_token(t) for t in toks):
+        res.count("branches", "history:spec-on-schedule:hypotheses-of-the-theorem-met")
+    if any(c != "*" and c not in t.split(":")[2].split(".") for (n, t, _) in L for c in nodes[n].split(":")[2].split(".")):
+        res.count("branches", "history:spec-on-schedule:unthreaded-classical-register")
+    spec = {"depth": srep["sdepth"], "emit": srep["semit"], "cnot": srep["scnot"], "unit": srep["sunit"], "meas": srep["smeas"],
+            "med": srep["smed"], "reset": srep["sreset"], "eff": srep["seff"]}
+    ref, regd = ref_metrics(circ)
+    model = dict(kv.split(".", 1) for kv in model_m.split("/"))
+    res.evaluations += len(spec) + 1
+    for k, v in spec.items():
+        if k in model and model[k] != v:
+            res.exact_break("metrics.spec-on-schedule", input=inp, impl=f"{k}: model metric {model[k]}", model=f"{k}: Spec on the schedule {v}",
+                            note="theorem metrics_eq_spec_on_any_schedule contradicted by evaluation")
+            return
+        if str(ref[k]) != v:
+            res.exact_break("metrics.spec-on-schedule", input=inp, impl=f"{k}: definition (harness) {ref[k]}", model=f"{k}: Spec on the schedule {v}")
+            return
+    want = "/".join(du.dots(regd[t]) for t in "epc")
+    if srep["sregd"] != want:
+        res.exact_break("metrics.spec-on-schedule", input=inp, impl=f"register depth (harness) {want}", model=f"Spec.regDepth on the schedule {srep['sregd']}")
+
+
 def run(ctx):
     res = Result()
     res.rule = ("one evaluation = one metric class evaluated on one circuit (default arguments, explicit penalty, log_steps=3); non-trivial = "
@@ -392,15 +507,17 @@ def run(ctx):
                                f"per register = {regd_now}", {"ne": init[0], "np": init[1], "nc": init[2], "edits": list(toks)}, "register_depth")
                         break
         with_eff = eff_cost_ok(circ)
-        q = "m" if with_eff else "n"
+        q = ("m" if with_eff else "n") + "+h"
         mtoks = no_q(toks)
         rep = drv.ask(f"dag.run ne={init[0]} np={init[1]} nc={init[2]} edits={du.emp(','.join(mtoks))} qs={','.join(['*'] * (len(mtoks) - 1) + [q])}")
         inp = {"ne": init[0], "np": init[1], "nc": init[2], "edits": toks}
         if rep["_status"] != "ok":
             res.exact_break("dag.run:reply", input=inp, impl="ok", model=rep["_raw"][:200])
             continue
-        model_m = rep["q"].split(",")[-1].split(":", 1)[1]
+        model_m = rep["q"].split(",")[-1].split("+")[0].split(":", 1)[1]
         check_circuit(res, circ, rng, inp, model_m)
+        if not res.violations:
+            check_theorem_on_history(res, drv, circ, inp, rep, model_m)
         res.nontrivial(init, tuple(toks))
         res.count("sizes", "history")
         if res.violations:
